@@ -67,6 +67,21 @@ func TestVerifC12(t *testing.T) {
 	for i := 0; i < hk.N(300, 6000); i++ {
 		gcs = append(gcs, gcase{rng.Bytes(32 * 4), chunks[rng.Intn(len(chunks))], "random"})
 	}
+	// finite streams that END before an acceptable candidate is complete: every length 0..31 after 0..2 rejected ones
+	for nbad := 0; nbad < 3; nbad++ {
+		for l := 0; l < 32; l++ {
+			var st []byte
+			for b := 0; b < nbad; b++ {
+				st = append(st, bad[(l+b)%5]...)
+			}
+			tail := ref.B32(randScalar(rng))
+			if l%2 == 0 {
+				tail = append([]byte{0, 0}, rng.Bytes(30)...) // small in any case, whatever follows
+			}
+			st = append(st, tail[:l]...)
+			gcs = append(gcs, gcase{st, chunks[(l+nbad)%len(chunks)], fmt.Sprintf("exhausted-after-%d-rejected", nbad)})
+		}
+	}
 	// a VERY long run of rejected candidates (no bound on redraws in the statement): 2^20+3 of them
 	{
 		nrej := 1<<20 + 3
@@ -82,6 +97,20 @@ func TestVerifC12(t *testing.T) {
 		g := gcs[i]
 		model := ref.SM2KeyGen(g.stream)
 		if model.Short {
+			// the stream ends before an acceptable 32-byte candidate is complete: there is no key "of this stream";
+			// whatever comes back must not be a key (C19 enumerates the failure positions and kinds, here it is the
+			// plain end of a finite stream)
+			rd := newScript(g.stream)
+			rd.chunk = g.chunk
+			var priv, x, y []byte
+			var err error
+			p, msg, _, _ := hk.Try(func() { priv, x, y, err = GenerateKey(rd) })
+			// (the private buffer that comes back next to the error is not judged: by convention results beside a
+			// non-nil error are unspecified, and C19 speaks of "no public key or signature")
+			if p || err == nil || x != nil || y != nil {
+				r.Violation("generatekey-returns-a-key-from-an-exhausted-stream", hk.D{"stream": hk.Hex(g.stream), "stream_len": len(g.stream), "chunk": g.chunk, "plan": g.plan, "priv": hexOrNil(priv), "x": hexOrNil(x), "err": errStr(err), "panic": msg})
+			}
+			r.Eval(fmt.Sprintf("genkey-exhausted:len%%32=%d,chunk=%d", len(g.stream)%32, g.chunk))
 			return
 		}
 		rd := newScript(g.stream)
